@@ -115,7 +115,10 @@ def run(F, R, tier):
         R.touched(SVC)
         B = mir.Body(svc, F)
         tests = q.bool_call_edges(B, ["hyper_client::should_skip_sig"])
-        R.floor("C15.R2", len(tests), 1, "branch on should_skip_sig in the service closure")
+        R.check(len(tests) == 1, "C15.R2", "C15.R2:%s:per-request-choice" % SVC, "%s:%s" % (svc["file"], svc["line"]),
+                "the per-request service closure itself branches on should_skip_sig(..) of the request it serves",
+                "the per-request service closure does not branch on a should_skip_sig(..) call of its own (%d such tests): the limit is not "
+                "chosen per request (e.g. decided once per connection and remembered)" % len(tests))
         sf = B.calls_named("ServiceBuilder::service_fn")
         R.floor("C15.R2", len(sf), 1, "service_fn wrapping the handler")
         for sb, tr, fa, cb, args in tests:
